@@ -41,13 +41,27 @@ type rendered struct {
 	Panic string
 }
 
-func renderAt(content []byte, pos int) (r rendered) {
+// renderAt renders an error at pos of content. moved: the error value was first rendered against another, longer file with other
+// line ends and then pointed at this one (SetFile / SetIndex) - the result is a function of the final file and position only.
+func renderAt(content []byte, pos int, moved bool) (r rendered) {
 	defer func() {
 		if p := recover(); p != nil {
 			r.Panic = fmt.Sprint(p)
 		}
 	}()
-	e := jerr.NewDocumentError(fs.NewFile("f", content), jerr.Format(jerr.ErrGeneric, "m"))
+	f := fs.NewFile("f", content)
+	e := jerr.NewDocumentError(f, jerr.Format(jerr.ErrGeneric, "m"))
+	if moved {
+		other := "aaaa\naaaa\naaaa\naaaa\naaaa\naaaa"
+		if !strings.Contains(string(content), "\r") {
+			other = strings.ReplaceAll(other, "\n", "\r")
+		}
+		e = jerr.NewDocumentError(fs.NewFile("g", other), jerr.Format(jerr.ErrGeneric, "m"))
+		e.SetIndex(jerrIndex(12))
+		_ = e.Line()
+		_ = e.SourceSubString()
+		e.SetFile(f)
+	}
 	e.SetIndex(jerrIndex(pos))
 	r.Line = int(e.Line())
 	r.Text = e.SourceSubString()
@@ -79,7 +93,7 @@ func init() {
 			c := cases[i]
 			atomic.AddInt64(&n, 1)
 			content := intsToBytes(c.Content)
-			r := renderAt(content, c.Pos)
+			r := renderAt(content, c.Pos, i%3 == 1)
 			bad := func(what, want, got string) {
 				atomic.AddInt64(&mism, 1)
 				w.Write(c17Mismatch{c.Content, c.Pos, what, want, got})
